@@ -88,3 +88,11 @@ Theorem C10_code_send_request_server_no_overall_W : forall cfg S2 S2S P2 P2S now
   fn_send_request_server_no_overall_W S2 S2S P2 P2S now a1 = ret (obs_sr (send_request cfg (set_timing st_init S2 S2S) tp_req (-1) now [(a1, Frame [127; 62; 120])])).
 Proof. exact tie_send_request_server_no_overall_W. Qed.
 Print Assumptions C10_code_send_request_server_no_overall_W.
+Theorem C10_code_send_request_percall_server_W : forall cfg T Tp S2 S2S P2 P2S now a1, timing cfg (Some T) P2 P2S -> 0 <= Tp -> now < a1 ->
+  fn_send_request_percall_server_W T Tp S2 S2S P2 P2S now a1 = ret (obs_sr (send_request cfg (set_timing st_init S2 S2S) tp_req Tp now [(a1, Frame [127; 62; 120])])).
+Proof. exact tie_send_request_percall_server_W. Qed.
+Print Assumptions C10_code_send_request_percall_server_W.
+Theorem C10_code_send_request_percall_server_WP : forall cfg T Tp S2 S2S P2 P2S now a1 a2, timing cfg (Some T) P2 P2S -> 0 <= Tp -> now < a1 ->
+  fn_send_request_percall_server_WP T Tp S2 S2S P2 P2S now a1 a2 = ret (obs_sr (send_request cfg (set_timing st_init S2 S2S) tp_req Tp now [(a1, Frame [127; 62; 120]); (a2, Frame [126; 0])])).
+Proof. exact tie_send_request_percall_server_WP. Qed.
+Print Assumptions C10_code_send_request_percall_server_WP.
